@@ -40,7 +40,7 @@ subprocess.check_call(["git", "-C", "/repo", "worktree", "add", "-f", "--detach"
 head = subprocess.check_output(["git", "-C", "/repo", "rev-parse", "HEAD"], text=True).strip()
 res = {"repo_head": head, "commands": []}
 def sh(c, timeout=1500):
-    p = subprocess.run(c, shell=True, cwd=wt, env=ENV, capture_output=True, text=True, timeout=timeout)
+    p = subprocess.run(["bash", "-o", "pipefail", "-c", c], cwd=wt, env=ENV, capture_output=True, text=True, timeout=timeout)
     res["commands"].append("%s -> exit %d" % (c, p.returncode))
     return p.returncode, p.stdout + p.stderr
 def place():
